@@ -1,5 +1,5 @@
 import Driver.Proto
-import ThunderModel.Merge
+import ThunderModel.MergeJs
 /-! C03 handler: `{"old": J, "new": J}` ↦ model delta, merged value, spec, well-formedness. -/
 open Lean TM
 
@@ -39,7 +39,7 @@ partial def wf : J → Bool
       let rec sorted : List (Nat × J) → Bool
         | a :: b :: r => a.1 < b.1 && sorted (b :: r)
         | _ => true
-      sorted kvs && (match J.keyOf kvs with | none => true | some (.sc _) => true | _ => false)
+      sorted kvs && (match J.keyOf kvs with | none => true | some (.sc _) => true | some .null => true | _ => false)
         && kvs.all (fun p => wf p.2)
   | _ => true
 
@@ -58,6 +58,7 @@ def handle : Handler := fun req => do
       ("wf", wf old && wf new),
       ("delta", jOpt encJ d),
       ("merged", jExcept encJ merged),
+      ("mergedJs", jExcept encJ (match d with | none => Except.ok prev | some dd => J.mergeJsTop prev dd)),
       ("spec", encJ (J.strip new)),
       ("stripOld", encJ prev)]
   | "merge" =>
